@@ -12,6 +12,7 @@ struct ParaRun : NodeEnv {
     std::vector<Grp> g; int nSub = 1; size_t nvmSize = 0; std::vector<uint32_t> writesPerOp, readsPerOp; bool injected = false;
     int64_t fKind = -1, fK = -1, fShort = 0;   // injected fault: 0 write / 1 read, k-th call, short-length class
     ParaRun(const Plan &p, Cov &c, bool vb) : NodeEnv(p, c, vb) {}
+    bool armed = false, armedReal = false, hooked = false; int armG = 0; uint32_t armB = 0; uint8_t armV = 0;
     // sub-index -> group index (sub 1 with more than one sub-index is the umbrella and aliases the first group)
     int subgap = 0;   /* a sub-index of 1010h/1011h that is not implemented (legal gap): its group is unreachable */
     int grpOfSub(int sub) { if (sub == subgap && subgap) return -1; if (nSub == 1) return sub == 1 ? 0 : -1; if (sub == 1) return 0; if (sub >= 2 && sub <= nSub) return sub - 2; return -1; }
@@ -135,8 +136,12 @@ struct ParaRun : NodeEnv {
             for (size_t q = 0; q < g.size(); q++) if (ramOf(q) != ramBefore[q]) { fail("para/store-changed-ram", ctx); return; }
             std::set<int> none; if (v.ok) for (size_t q = 0; q < g.size(); q++) if (memcmp(&S().nvm[g[q].offset], g[q].nvmModel.data(), g[q].size) != 0) { fail("para/nvm-content", "NVM range of group " + std::to_string(q) + " differs from the model after " + ctx); return; }
         }
-        else if (k == "nmt") { uint8_t cs = (uint8_t)o.arg(0); if (cs != 129 && cs != 130) return; snapRam(); if (fKind == 1) presetShortReset(cs == 129); deliver(Frame(0, 2, {cs, 0})); CO_ERR err = CONodeGetErr(N()); afterLoad(mk, cs == 129, true, err, cs == 129 ? "NMT reset node" : "NMT reset communication"); cov.hit(cs == 129 ? "reset-node" : "reset-communication"); }
-        else if (k == "powercycle") { for (auto &x : g) x.ramUnknown = false; buildNode(false); cov.hit("F10-power-cycle"); boot("power cycle"); }
+        else if (k == "mcram") { armG = (int)((uint64_t)o.arg(0) % g.size()); armB = (uint32_t)o.arg(1) % g[(size_t)armG].size; armV = (uint8_t)o.arg(2); armed = true;   // application code in CONmtModeChange(INIT): puts one of its variables - part of a parameter group - into a safe state when the node leaves for a reset
+            if (!hooked) { hooked = true; w.onModeChange = [this](int mode) { if (armedReal && mode == CO_INIT) { armedReal = false; S().paraRam[(size_t)armG][armB] = armV; } }; } armedReal = true; return; }
+        // (mcram) the write happens when the node enters INIT, i.e. before the groups are reloaded: a reloaded group shows the stored image, any other group keeps the written byte
+        else if (k == "nmt") { uint8_t cs = (uint8_t)o.arg(0); if (cs != 129 && cs != 130) return; snapRam();
+            if (armed) { armed = false; ramPrev[(size_t)armG][armB] = armV; cov.hit("application-writes-a-stored-parameter-in-the-init-callback"); nontrivial = true; } if (fKind == 1) presetShortReset(cs == 129); deliver(Frame(0, 2, {cs, 0})); CO_ERR err = CONodeGetErr(N()); afterLoad(mk, cs == 129, true, err, cs == 129 ? "NMT reset node" : "NMT reset communication"); cov.hit(cs == 129 ? "reset-node" : "reset-communication"); }
+        else if (k == "powercycle") { armed = armedReal = false; for (auto &x : g) x.ramUnknown = false; buildNode(false); cov.hit("F10-power-cycle"); boot("power cycle"); }
         safety();
         writesPerOp.push_back((uint32_t)(S().nvmWrites - w0)); readsPerOp.push_back((uint32_t)(S().nvmReads - r0));
     }
@@ -165,6 +170,7 @@ Plan gen_para(Rng &r, bool thorough) {
         else if (c < 13) { int64_t sig = r.chance(3, 4) ? 0x65766173 : r.pick<int64_t>({0x65766172, 0x73617665, 0, 0x64616F6C, 0x65766173 ^ 0x01000000, 0x00766173}); p.ops.push_back(Op("store", {r.chance(4, 5) ? r.range(1, nsub) : r.range(0, nsub + 1), sig})); }
         else if (c < 16) { int64_t sig = r.chance(3, 4) ? 0x64616F6C : r.pick<int64_t>({0x64616F6D, 0x6C6F6164, 0, 0x65766173}); p.ops.push_back(Op("restore", {r.chance(4, 5) ? r.range(1, nsub) : r.range(0, nsub + 1), sig})); }
         else if (c < 18) p.ops.push_back(Op("nmt", {r.pick<int64_t>({129, 130})}));
+        else if (c == 18 && r.chance(1, 2)) { p.ops.push_back(Op("mcram", {(int64_t)r.below((uint32_t)ng), (int64_t)r.below(64), (int64_t)r.byte()})); p.ops.push_back(Op("nmt", {r.pick<int64_t>({129, 130})})); }
         else if (c == 18) p.ops.push_back(Op("read", {(int64_t)r.below(2), r.chance(1, 2) ? 0 : r.range(0, nsub + 1)}));
         else p.ops.push_back(Op("powercycle"));
     }
